@@ -24,6 +24,7 @@ import (
 	"os"
 	"os/exec"
 	"path/filepath"
+	"regexp"
 	"sort"
 	"strconv"
 	"strings"
@@ -185,6 +186,8 @@ func exportMap(repo string) map[string]string {
 	return m
 }
 
+var grpcRoot = regexp.MustCompile(`(^|/)grpc(@v[^/]+)?/?$`)
+
 // durableDir rewrites only the sync import of every buildable non-test file of dir.
 func durableDir(dir, out string, overlay map[string]string, counts map[string]int) {
 	ents, err := os.ReadDir(dir)
@@ -215,6 +218,27 @@ func durableDir(dir, out string, overlay map[string]string, counts map[string]in
 				im.Path.Value = strconv.Quote("verif/engine/vsyncd")
 				im.Name = ast.NewIdent("sync")
 				changed = true
+			}
+		}
+		if changed && grpcRoot.MatchString(dir) {
+			// library entry points that consume caller-owned arguments (option slices): a fine-grained scheduling point
+			added := false
+			for _, d := range f.Decls {
+				fd, ok := d.(*ast.FuncDecl)
+				if !ok || fd.Body == nil || fd.Recv != nil {
+					continue
+				}
+				switch fd.Name.Name {
+				case "Dial", "DialContext", "NewClient", "NewServer":
+					st := &ast.ExprStmt{X: &ast.CallExpr{Fun: &ast.SelectorExpr{X: ast.NewIdent("vs"), Sel: ast.NewIdent("FinePoint")}, Args: []ast.Expr{
+						&ast.BasicLit{Kind: token.STRING, Value: strconv.Quote("fn:grpc." + fd.Name.Name)}}}}
+					fd.Body.List = append([]ast.Stmt{st}, fd.Body.List...)
+					added = true
+					counts["finepoint-lib"]++
+				}
+			}
+			if added {
+				astutil.AddNamedImport(fset, f, "vs", vsPath)
 			}
 		}
 		if !changed {
@@ -560,6 +584,19 @@ func (r *rw) rewriteFile(f *ast.File) bool {
 		}
 		return true
 	})
+	// fine-grained preemption: every function of the code under test begins with a (normally inert) scheduling point
+	if !strings.HasSuffix(r.file, ".pb.go") {
+		for _, d := range f.Decls {
+			fd, ok := d.(*ast.FuncDecl)
+			if !ok || fd.Body == nil || fd.Name.Name == "init" {
+				continue
+			}
+			st := &ast.ExprStmt{X: &ast.CallExpr{Fun: r.vs("FinePoint"), Args: []ast.Expr{
+				&ast.BasicLit{Kind: token.STRING, Value: strconv.Quote("fn:" + r.file + ":" + fd.Name.Name)}}}}
+			fd.Body.List = append([]ast.Stmt{st}, fd.Body.List...)
+			r.counts["finepoint"]++
+		}
+	}
 	if r.usedVS {
 		changed = true
 		astutil.AddNamedImport(r.fset, f, "vs", vsPath)
